@@ -114,15 +114,13 @@ Proof. exact view_de_kind_total. Qed.
 (* ---- "any view tree that deserialises successfully can be laid out and rendered".
    view_tree is the same deserialiser (Serde/ViewDe.v view_gen) building the view tree of the C10 model
    instead of (): text -> VText, flex -> VFlex, container -> VContainer, glyph -> VGlyph, image -> VImage,
-   tag -> VTag, ref -> VNone, trace-layout -> the inner view; the node contents (cells, faces, alignments,
+   image_ascii -> VImageAscii, tag -> VTag, ref -> VRef None, trace-layout -> the inner view; the node contents (cells, faces, alignments,
    flex factors, margins, ids) are arbitrary functions K of the JSON nodes. *)
 
-(* every accepted document has such a view tree, unless it contains an image_ascii view (Err 100): that
-   kind is not in the C10 model and stays checked on the implementation only *)
-Theorem C19_view_tree_covers_partial :
+(* every accepted document has such a view tree *)
+Theorem C19_view_tree_covers :
   forall (orc : N -> json -> bool) (frgba : str -> option rgba) (K : content) (k : vkind) (j : json),
-    view_de_kind orc frgba k j = Ok tt ->
-    (exists v, view_tree orc frgba K k j = Ok v) \/ view_tree orc frgba K k j = Err 100.
+    view_de_kind orc frgba k j = Ok tt -> exists v, view_tree orc frgba K k j = Ok v.
 Proof. exact view_tree_covers. Qed.
 
 (* and that view tree lays out under every valid constraint and renders into every surface cut out of a
